@@ -7,10 +7,36 @@
 
 namespace c9
 {
-    // V <lazy view> VT <traits> E <evaluated> ET <traits>
+    // static knowledge of a (maybe) view type alone:  M <0|1> (NUM | FS .. FD .. FZ .. BD .. BZ ..)
+    template <typename U>
+    void emit_view_static_(Out& out)
+    {
+        if constexpr (meta::is_num_v<U>) {
+            out.tok("NUM");
+        } else {
+            emit_array_traits_static<U>(out);
+        }
+    }
+
+    template <typename view_t>
+    void emit_view_static(Out& out)
+    {
+        out.tok("M");
+        out.i(meta::is_maybe_v<view_t> ? 1 : 0);
+        if constexpr (meta::is_maybe_v<view_t>) {
+            emit_view_static_<rmcv<meta::get_maybe_type_t<view_t>>>(out);
+        } else {
+            emit_view_static_<view_t>(out);
+        }
+    }
+
+    // VS <static traits of the view type> V <lazy view> VT <traits> E <evaluated> ET <traits>
+    // (VS first: what the type claims is known even when reading the view throws)
     template <typename view_t>
     void emit_view(Out& out, const view_t& v)
     {
+        out.tok("VS");
+        emit_view_static<view_t>(out);
         out.tok("V");
         emit_arr(out, v);
         out.tok("VT");
